@@ -24,7 +24,7 @@ RULE["C02"] = RULE["C01"].replace("autograd returned", "autograd's forward mode 
 RULE["C04"] = "Same catalogue (real and complex data); a case is non-trivial iff both make_vjp and make_jvp returned for it; judged by the exact adjoint identity <conj g, J v> = <conj vjp(g), v> (tolerance 1e-10 relative to the sum of absolute products) and linearity of both maps; no numerical differentiation involved. distinct = distinct signatures."
 RULE["C05"] = "Same catalogue (real, complex, reduced-precision and kind/broadcast mixes); non-trivial iff a VJP or JVP result was returned and its structural descriptor (container nesting, shape, real/complex, dtype for float64/complex128) was compared with that of the argument (VJP) or the output (JVP). distinct = distinct signatures."
 RULE["C07"] = "Catalogue at order 2 (real configurations plus those that really involve complex data; two-operand configurations also with both operands differentiated jointly = mixed second derivatives): phi(x)=<w,f(x)>, and for a third of the configurations (all of linalg) also the weighted squared residual 0.5*sum a|f(x)-f(x0)|^2 whose cotangent is exactly zero at x0 yet traced (judged only where one-sided derivatives of the gradient agree); Hessian-vector products by rev-over-rev, fwd-over-rev, rev-over-fwd and v'Hv by fwd-over-fwd compared with each other, with a Richardson FD of autograd's first-order gradient and a raw-NumPy second difference; symmetry <u,Hv>=<v,Hu>. Non-trivial iff at least two mode combinations returned and the FD reference was self-consistent. distinct = distinct signatures."
-RULE["C09"] = "Catalogue restricted to calls NumPy accepts with complex data: every real/complex assignment of the arguments; reverse result compared with conj(J_R^T conj g) and forward result with J_R v where J_R is the realified Jacobian from the FD oracle; J_R v additionally obtained by reverse mode applied to the cotangent -> VJP map at the zero cotangent (the make_jvp_reversemode / make_ggnvp path). Non-trivial as for C01. distinct = distinct signatures."
+RULE["C09"] = "Catalogue restricted to calls NumPy accepts with complex data: every real/complex assignment of the arguments, complex-typed data on the real axis (zero imaginary parts) for the unary / linalg / fft functions, complex bases in the left half plane for power; reverse result compared with conj(J_R^T conj g) and forward result with J_R v where J_R is the realified Jacobian from the FD oracle; J_R v additionally obtained by reverse mode applied to the cotangent -> VJP map at the zero cotangent (the make_jvp_reversemode / make_ggnvp path). Non-trivial as for C01. distinct = distinct signatures."
 ASSUMPTIONS = {
     p: [
         "NumPy's own functions evaluated on plain arrays define the true function; the Jacobian reference is a 6th-order Richardson central difference of it (self-estimated error <= 1e-8, mismatch threshold 1e-6 relative)",
